@@ -202,7 +202,26 @@ class WorkerRun:
         self._attempt_rejected_report()
         if job.checkpointing:
             self.sink.write_ckpt(self.trial_id, self.level)
+        pr = job.s.get("repeat_level")
+        if pr and hfloat(job.table_seed, "repeat", self.trial_id, self.run, self.level) < pr:
+            # the script reports twice for the same resource value (say mid-epoch and end-of-epoch), with different metrics
+            self._report(variant="mid")
+            sim.count("probe.level_reported_twice")
+        self._report()
+        self.level += 1
+        if self.level > self.end_level:
+            sim.after(job.exit_delay(self.trial_id, self.run), lambda: self._exit(0))
+        else:
+            sim.after(job.duration(self.trial_id, self.run, self.level), self._epoch)
+
+    def _report(self, variant=None):
+        job, sim = self.job, self.sim
         rd = job.report_dict(self.config, self.level, self.start_level)
+        if variant:
+            hk = hp_key(self.config, job.space_keys)
+            for name, sign in zip(job.metric_names, job.signs):
+                if isinstance(rd.get(name), float) and rd[name] == rd[name]:
+                    rd[name] = job.value(hk, self.level, name + "#" + variant, sign)
         sim.serial = getattr(sim, "serial", 0) + 1
         rd["sn"] = sim.serial  # unique serial: lets oracles attribute every delivered result to one report
         buf = io.StringIO()
@@ -215,11 +234,6 @@ class WorkerRun:
             "w.report", trial=self.trial_id, run=self.run, level=self.level,
             idx=self.n_reports - 1, sn=rd["sn"], values=canon(rd),
         )
-        self.level += 1
-        if self.level > self.end_level:
-            sim.after(job.exit_delay(self.trial_id, self.run), lambda: self._exit(0))
-        else:
-            sim.after(job.duration(self.trial_id, self.run, self.level), self._epoch)
 
     def _attempt_rejected_report(self):
         """F11: the script tries to report something the protocol must reject at the reporting side."""
